@@ -316,22 +316,24 @@ pub fn number_to_string(
     }
 
     let int_val = n as i64;
+    // unsigned_abs: the magnitude of i64::MIN (-(2 ** 63)) does not fit an i64
+    let magnitude = int_val.unsigned_abs();
     let result = match radix {
-        2 => format!("{:b}", int_val.abs()),
-        8 => format!("{:o}", int_val.abs()),
-        16 => format!("{:x}", int_val.abs()),
+        2 => format!("{:b}", magnitude),
+        8 => format!("{:o}", magnitude),
+        16 => format!("{:x}", magnitude),
         _ => {
             // Generic radix conversion
             const DIGITS: &[u8] = b"0123456789abcdefghijklmnopqrstuvwxyz";
-            let mut num = int_val.abs();
+            let mut num = magnitude;
             let mut result = String::new();
             while num > 0 {
-                let digit_idx = (num % radix as i64) as usize;
+                let digit_idx = (num % radix as u64) as usize;
                 // radix is validated to be 2-36, so digit_idx is always 0-35
                 if let Some(&ch) = DIGITS.get(digit_idx) {
                     result.insert(0, ch as char);
                 }
-                num /= radix as i64;
+                num /= radix as u64;
             }
             if result.is_empty() {
                 result = "0".to_string();
